@@ -1,12 +1,16 @@
 use crate::engine::Ctx;
 
+pub mod c06;
 pub mod c10;
+pub mod c14;
 
 pub type Runner = fn(&Ctx);
 
 pub fn lookup(id: &str) -> Option<(&'static str, Runner)> {
     Some(match id {
+        "C06" => ("C06", c06::run as Runner),
         "C10" => ("C10", c10::run as Runner),
+        "C14" => ("C14", c14::run as Runner),
         _ => return None,
     })
 }
